@@ -45,6 +45,8 @@ def gen_cases(rng, tier):
             cases.append(circ(d, rounds, [rng.randint(0, 1) for _ in range(d)], rng.random() < 0.8))
     for d in (2, 3):
         cases.append(circ(d, [], [0] * d))
+    for i, c in enumerate(cases):          # every second case builds the kernel BEFORE the circuit, from the same description object
+        c['kernel_first'] = i % 2 == 1
     return cases
 
 
